@@ -748,6 +748,16 @@ func Check(res *Result) []Fail {
 			add("C01:two-outcomes", "message %d got %d terminal events", id, c)
 		}
 	}
+	if res.CloseHang && len(sc.Faults) == 0 && len(sc.MetaFailAt) == 0 && sc.LeaderlessAtStart < 0 && !sc.Idempotent {
+		// a healthy cluster, no fault of any kind, and still a buffered message was never handed over: no flush trigger
+		// (count, bytes, frequency, or "as soon as possible") fired for it
+		for _, id := range res.Submitted {
+			if count[id] == 0 {
+				add("C16:buffered-message-never-flushed", "message %d of a fault-free run was never sent (flush=%d msgs/%d bytes/%d ms, max %d msgs)", id, sc.FlushMsgs, sc.FlushBytes, sc.FlushFreq, sc.MaxMsgs)
+				break
+			}
+		}
+	}
 	if res.ClosedOK || res.CloseHang {
 		for _, id := range res.Submitted {
 			if count[id] == 0 {
